@@ -581,6 +581,56 @@ class ArrayElements(Stage):
         return res
 
 
+class InstalledElsewhere(Stage):
+    """where the tool happens to be installed must not matter: the working tree is copied (without .git) to scratch locations of
+    different shapes - below a hidden directory as under ~/.local/share, a path with a blank, a path with dots - and the same
+    described log is shown from there: names, nil types and enum labels are the ones the tree in place gives"""
+    name = 'installed-elsewhere'
+
+    def examples(self, tier):
+        return 4 if tier == 'quick' else 14
+
+    def gen(self, d, tier):
+        from .. import histgen
+        specs = histgen.history(d, nconn=1, nmsg=d.int(8, 24), profile=dict(reuse=0.5, weights=dict(bind=16, message=50, enum=24, nulls=10, sync=4, delete=6)))
+        return dict(specs=specs, where=d.choice([['home', '.local', 'share', 'wayland-debug'], ['.cache', 'wd'], ['work dir', 'wayland debug'], ['a.b', '.c', 'wd'],
+                                                 ['opt', 'wayland-debug-0.1.2']]))
+
+    def execute(self, case):
+        import subprocess
+        from .. import cli
+        res = Result()
+        res.evals = 2
+        text = '\n'.join(wire.render(m, 'new') for m in case['specs']) + '\n'
+        with cli.Scratch() as sc:
+            log = sc.write('in.log', text)
+            rc0, out0, err0 = cli.run_main(['-C', '-l', log], stdin=b'q\n')
+            dst = sc.path(os.path.join(*case['where']))
+            os.makedirs(os.path.dirname(dst), exist_ok=True)
+            shutil.copytree(env.REPO, dst, ignore=shutil.ignore_patterns('.git', '__pycache__', '.pytest_cache', '.mypy_cache'))
+            try:
+                r = subprocess.run([cli.PY, os.path.join(dst, 'main.py'), '-C', '-l', log], input=b'q\n', stdout=subprocess.PIPE, stderr=subprocess.PIPE,
+                                   env=cli.base_env(None), timeout=120, cwd=sc.dir)
+                rc1, out1 = r.returncode, r.stdout
+            except subprocess.TimeoutExpired:
+                res.label('timeout(inconclusive)')
+                return res
+        if rc0 is None:
+            res.label('timeout(inconclusive)')
+            return res
+        if rc1 != rc0:
+            res.bad('installed-elsewhere:exit-status', 'from %s: exit %r, in place %r' % ('/'.join(case['where']), rc1, rc0))
+        if out1 != out0:
+            a, b = out0.decode('utf-8', 'replace').split('\n'), out1.decode('utf-8', 'replace').split('\n')
+            k = next((i for i, (x, y) in enumerate(zip(a, b)) if x != y), min(len(a), len(b)))
+            res.bad('installed-elsewhere:display', 'installed under .../%s the same log reads differently, line %d: in place %r, from there %r' % (
+                '/'.join(case['where']), k, a[k] if k < len(a) else None, b[k] if k < len(b) else None))
+        res.nontrivial = b'=' in out0
+        res.label('location:' + ('hidden-directory' if any(p.startswith('.') for p in case['where']) else 'blank-in-path' if any(' ' in p for p in case['where']) else 'other'))
+        res.sample = dict(where=case['where'], lines=text.split('\n')[:4])
+        return res
+
+
 class C07(Prop):
     id = 'C07'
     rule = ('shipped-exhaustive: every shipped interface (one case each) x message x argument position: get_arg_name / look_up_interface / '
@@ -592,7 +642,7 @@ class C07(Prop):
     assumptions = ['protoxml.py (own ElementTree reader and literal evaluator) is the oracle',
                    'ties at equal maximal version: any one description is accepted, consistently per interface',
                    'arguments that carry no enum attribute in the XML (hand-tagged by the tool) are not judged']
-    stages = [Shipped(), Pipeline(), ArrayElements(), Synthetic()]
+    stages = [Shipped(), Pipeline(), ArrayElements(), Synthetic(), InstalledElsewhere()]
 
 
 PROP = C07()
